@@ -3,7 +3,8 @@
 (* every short sequence of locals, and a grid of the four limits.                                          *)
 EXTENDS Collector
 
-CONSTANTS N, KindsUsed, MaxChild, MaxRoots, VarsSet, StrSet, CollSet, DepthSet, MaxWatch, WVarsSet
+CONSTANTS N, KindsUsed, MaxChild, MaxRoots, VarsSet, StrSet, CollSet, DepthSet, MaxWatch, WVarsSet,
+          MaxFrames      \* frames below the paused one that are collected as well (each with up to MaxRoots locals)
 
 Nodes == 1..N
 SeqsUpTo(S, k) == UNION {[1..m -> S] : m \in 0..k}
@@ -17,10 +18,10 @@ SLen(g) == [n \in Nodes |-> IF g.kind[n] = "str" THEN 3 ELSE 1]
 MCInit ==
     \E g \in Graphs : \E r \in SeqsUpTo(Nodes, MaxRoots) \ {<<>>} :
       \E mv \in VarsSet : \E ms \in StrSet : \E mc \in CollSet : \E md \in DepthSet :
-        \E w \in SeqsUpTo(Nodes, MaxWatch) : \E wv \in WVarsSet :
-          InitWith([kind |-> g.kind, child |-> g.child, slen |-> SLen(g), roots |-> r,
+        \E w \in SeqsUpTo(Nodes, MaxWatch) : \E wv \in WVarsSet : \E fr \in SeqsUpTo(SeqsUpTo(Nodes, MaxRoots), MaxFrames) :
+          InitWith([kind |-> g.kind, child |-> g.child, slen |-> SLen(g), roots |-> r, frames |-> fr,
                     maxVars |-> mv, maxStr |-> ms, maxColl |-> mc, maxDepth |-> md,
                     watch |-> w, wlim |-> [maxVars |-> wv, maxStr |-> 2, maxColl |-> 2, maxDepth |-> 3]])
 
-MCSpec == MCInit /\ [][Next]_vars /\ WF_vars(Step \/ WatchBegin \/ WatchStep)
+MCSpec == MCInit /\ [][Next]_vars /\ WF_vars(Step \/ FrameBegin \/ FrameStep \/ WatchBegin \/ WatchStep)
 =============================================================================
